@@ -41,8 +41,25 @@ def main():
     except MachineryError as e:
         print("MACHINERY-FAILURE property=%s %s" % (a.prop, e))
         sys.exit(2)
-    except Exception:
+    except Exception as e:
         traceback.print_exc()
+        # An exception that was RAISED INSIDE the code under test, at a place where the check calls it with valid input and
+        # expects a value (on the unchanged tree it returns one), is a verdict about that code - not a failure of the machinery.
+        tb = traceback.extract_tb(e.__traceback__)
+        from .vlib import util
+        if tb and os.path.abspath(tb[-1].filename).startswith(os.path.abspath(util.REPO) + os.sep):
+            d = os.path.join(util.REPLAYS, a.prop.upper())
+            os.makedirs(d, exist_ok=True)
+            p = os.path.join(d, "unguarded_exception.json")
+            detail = {"property": a.prop.upper(), "signature": "exception-from-the-code-under-test:" + type(e).__name__,
+                      "exception": repr(e)[:300], "raised_at": "%s:%d" % (tb[-1].filename, tb[-1].lineno),
+                      "called_from": ["%s:%d" % (f.filename, f.lineno) for f in tb if "/harness/" in f.filename][-2:]}
+            with open(p, "w") as f:
+                json.dump(detail, f, indent=1)
+            print("VIOLATION property=%s replay=%s" % (a.prop.upper(), p))
+            print("  check=valid-call signature=%s" % detail["signature"])
+            print("  " + json.dumps(detail)[:800])
+            sys.exit(1)
         print("MACHINERY-FAILURE property=%s unexpected exception" % a.prop)
         sys.exit(2)
     sys.exit(rc)
